@@ -11,10 +11,8 @@ Oracle:  the property text on the real code: rigidity, exactness against ground 
          optimum, de-flipping, uniform scaling, both scale factors, inputs unchanged.
 """
 import ast
-import copy
 import math
 import os
-import textwrap
 from fractions import Fraction
 
 from core import coqrun
@@ -122,11 +120,13 @@ def _add(a, b):
     return [a[i] + b[i] for i in range(3)]
 
 
-def gen_align_case(rng, max_deg=30.0, noise=None, flip=False):
+def gen_align_case(rng, max_deg=30.0, noise=None, flip=False, wide=False):
     """A solved system seen from a misaligned frame.  Ground truth lives in the desired frame: origin at 0,
     x-axis samples (a,0,0) a in [0.3,3], plane samples (b,c,0) with |c| >= 0.3 (well conditioned), base stations
     above the floor.  The inputs to align() are the images under the misalignment M (rotation < max_deg, |t| <= 3 m),
     optionally with bounded noise on the samples."""
+    if wide:       # any misalignment, possibly mirrored: only rigidity, input preservation and de-flipping are checked
+        max_deg, flip = 180.0, rng.random() < 0.5
     if noise is None:
         noise = rng.choice([0.0, 0.0, 0.001, 0.003])
     ang = math.radians(rng.uniform(0.0, max_deg))
@@ -152,13 +152,13 @@ def gen_align_case(rng, max_deg=30.0, noise=None, flip=False):
     truth, bs = [], []
     for bid in rng.sample(range(16), nb):
         R = _rand_rot(rng)
-        t = [rng.uniform(-4, 4), rng.uniform(-4, 4), rng.uniform(0.5, 3.0)]
+        t = [rng.uniform(-4, 4), rng.uniform(-4, 4), rng.uniform(0.1 if wide else 0.5, 3.0)]
         truth.append([bid, R, t])
         bs.append([bid, _mm(MR, R), _add(_mv(MR, t), Mt)])
     MRt = _tr(MR)
     return {'kind': 'align', 'angle_deg': math.degrees(ang), 'noise': noise, 'origin': origin, 'x_axis': x_axis,
             'xy_plane': plane, 'bs': bs, 'truth_bs': truth,
-            'truth_T': [MRt, [-x for x in _mv(MRt, Mt)]], 'flip': bool(flip)}
+            'truth_T': [MRt, [-x for x in _mv(MRt, Mt)]], 'flip': bool(flip), 'wide': bool(wide)}
 
 
 def gen_scale_case(rng):
@@ -346,7 +346,13 @@ def check_align(case):
     if not worst <= TOL_RIGID:
         return {'class': 'align_not_rigid', 'case': case, 'expected': 'distances/relative rotations preserved (<=%g)' % TOL_RIGID,
                 'observed': float(worst)}
-    # ---- exact: equals the converged optimum (= ground truth when noise-free); flips resolved
+    xm = TR @ np.mean(x_axis, axis=0) + Tt
+    if xm[0] < -1e-9 or res[keys[0]].translation[2] < -1e-9:
+        return {'class': 'align_flipped_result', 'case': case, 'expected': 'x-axis mean at X>=0, first base station at Z>=0',
+                'observed': [float(xm[0]), float(res[keys[0]].translation[2])]}
+    if case.get('wide'):
+        return None
+    # ---- exact: equals the converged optimum (= ground truth when noise-free)
     RR, Rt = _reference_T(case)
     err = max(np.abs(TR - RR).max(), np.abs(Tt - Rt).max())
     detail = {'T_error': float(err)}
@@ -361,10 +367,6 @@ def check_align(case):
         for p in plane:
             err = max(err, abs((TR @ p + Tt)[2]))
         detail['ground_truth_error'] = float(err)
-    xm = TR @ np.mean(x_axis, axis=0) + Tt
-    if xm[0] < 0 or res[keys[0]].translation[2] < 0:
-        return {'class': 'align_flipped_result', 'case': case, 'expected': 'x-axis mean at X>=0, first base station at Z>=0',
-                'observed': [float(xm[0]), float(res[keys[0]].translation[2])]}
     if not err <= TOL_EXACT:
         st = spy.calls[-1] if spy.calls else {}
         cls = 'aligner_max_nfev_reached' if st.get('status') == 0 else 'align_not_exact'
@@ -504,6 +506,8 @@ def oracle(ctx, deep=False):
         n_align = max(n_align, 12000)
     for _ in range(n_align):
         cases.append(gen_align_case(ctx.rng))
+    for _ in range(n_align // 5):
+        cases.append(gen_align_case(ctx.rng, wide=True))
     for _ in range(ctx.scale(300, 3000)):
         cases.append(gen_scale_case(ctx.rng))
     for _ in range(ctx.scale(150, 1500)):
@@ -518,11 +522,13 @@ def oracle(ctx, deep=False):
         if seen[f['class']] <= 3:
             out.append(f)
     noisy = sum(1 for c in cases if c['kind'] == 'align' and c.get('noise'))
+    wide = sum(1 for c in cases if c['kind'] == 'align' and c.get('wide'))
     return {'evaluations': len(cases), 'failures': out, 'distinct_nontrivial': 0,
             'rule': 'align on random layouts (misalignment <= 30 deg / 3 m, 1-4 samples per axis/plane, 1-4 base stations, '
                     '%d with bounded noise, %d corpus cases first): rigid (1e-9), inputs untouched, flips resolved, equal to '
-                    'ground truth / independently converged optimum (1e-5); scale_fixed_point and scale_diagonals against the '
-                    'generating factor; failures per class: %s' % (noisy, n_corpus, seen),
+                    'ground truth / independently converged optimum (1e-5); %d layouts with any misalignment up to 180 deg '
+                    'and mirrored: rigid, inputs untouched, flips resolved; scale_fixed_point and scale_diagonals against the '
+                    'generating factor; failures per class: %s' % (noisy, n_corpus, wide, seen),
             'samples': [{'kind': c['kind'], 'angle_deg': c.get('angle_deg'), 'n_bs': len(c['bs'])} for c in cases[n_corpus:n_corpus + 2]]}
 
 
